@@ -46,8 +46,8 @@ TEdgeParent == <<7, 7, 8, 8, 9, 10, 11, 12, 13, 14, 15, 15, 15, 15>>
 TEdgeArea   == <<1, 2, 2, 1, 3, 2>>
 TEdgeHeight == (7 :> 2) @@ (8 :> 1) @@ (9 :> 2) @@ (10 :> 1)
 TEdgeSym    == (7 :> 3) @@ (8 :> 2) @@ (9 :> 2) @@ (10 :> 1)
-TEdgeN0 == TCoreN0
-TEdgeH0 == TCoreH0
+TEdgeN0 == [TCoreN0 EXCEPT ![3] = [a |-> <<1, 1>>, b |-> <<1, 1>>, c |-> Z, d |-> Z]]    \* the edited leaf of the Sym-2 block holds a and b
+TEdgeH0 == [TCoreH0 EXCEPT ![3] = {"a", "b"}]
 TEdgeTargets == {3, 8, 12, 15}
 TEdgeTargetsAll == 1..15
 
